@@ -187,6 +187,8 @@ pub fn literals(rng: &mut Rng, thorough: bool) -> Vec<String> {
             }
         }
     }
+    // the enumerated number grammar (integer part of 1..25 digits x fraction / exponent shapes), well-formed members
+    v.extend(gen::number_grammar().into_iter().filter(|s| gen::is_json_number(s)));
     v.push("340282366920938463463374607431768211456".into()); // 2^128
     v.push("-170141183460469231731687303715884105729".into()); // -2^127 - 1
     // halfway and near-halfway cases around random and boundary doubles
@@ -426,6 +428,16 @@ pub fn run_c08(out: &mut Out, tier: &str, seed: u64) {
     }
     ints!(u128, "u128", u128s.clone());
     ints!(i128, "i128", u128s.iter().map(|x| *x as i128).chain([i128::MIN, i128::MAX, -1]));
+    // negative values of every magnitude, and both signs around the 63-, 64- and 127-bit boundaries
+    let mut i128s: Vec<i128> = u128s.iter().map(|x| ((*x >> 1) as i128).wrapping_neg()).collect();
+    for e in [31u32, 32, 53, 62, 63, 64, 65, 95, 96, 126] {
+        for d in -3i128..=3 {
+            i128s.push((1i128 << e) + d);
+            i128s.push(-(1i128 << e) + d);
+        }
+    }
+    ints!(i128, "i128", i128s.clone());
+    ints!(u128, "u128", i128s.iter().filter(|x| **x >= 0).map(|x| *x as u128));
     // DOM integers
     for _ in 0..2000 {
         let u = rng.next() >> rng.below(64);
